@@ -17,7 +17,10 @@ ExprKinds == {
   x, N("Sum", << y, z >>), N("Product", << y, z >>), B("Quotient", y, z),
   B("Power", y, KI(2)), Call(ff, << y >>), B("Sub", tt, KI(0)),
   N("Sum", << KI(0) >>), N("Product", << KI(0), y >>), B("Quotient", KI(0), y),
-  B("FloorDiv", y, KI(2)), Cmp(y, "<", z) }
+  B("FloorDiv", y, KI(2)), Cmp(y, "<", z),
+  \* nodes with an EMPTY child sequence / of the non-arithmetic kinds are operands like any other
+  \* (nothing but a known zero may be treated as one)
+  Call(ff, << >>), CallKw(V("g"), << >>, << KwArg("k1", y) >>), Look(oo, "p") }
 NumKinds0 == { KI(0), KI(1), KI(-1), KI(2), K(FltV(0, 1)), K(FltV(1, 1)),
               K(BoolV(TRUE)), K(BoolV(FALSE)), K(FltV(3, 2)), K(FltV(1, 2)) }
 ExprSmall == { x, N("Sum", << y, z >>), N("Product", << y, z >>), B("Quotient", y, z),
